@@ -181,22 +181,46 @@ def _alarm(*a: Any) -> None:
     raise _Timeout()
 
 
+LINE_BUDGET = 60000
+
+
 def _finish(orc: pyrt.Oracle, fn: Any) -> Dict[str, Any]:
+    """Run fn() under a DETERMINISTIC step budget (number of executed source lines, counted with sys.settrace): a run that
+    exceeds it is reported as `diverges`.  Wall-clock time never decides an outcome (a loaded machine must not change a
+    verdict); a generous alarm is kept only as a backstop and surfaces as a machinery failure."""
+    import sys
+
+    count = [0]
+
+    def tracer(frame: Any, event: str, arg: Any) -> Any:
+        if event == "line":
+            count[0] += 1
+            if count[0] > LINE_BUDGET:
+                raise pyrt.StepLimit()
+        return tracer
+
     old = signal.signal(signal.SIGALRM, _alarm)
-    signal.setitimer(signal.ITIMER_REAL, 2.0)
+    signal.setitimer(signal.ITIMER_REAL, 120.0)
     try:
         try:
-            res = fn()
+            sys.settrace(tracer)
+            try:
+                res = fn()
+            finally:
+                sys.settrace(None)
             outcome = ["ret", pyrt.vid(res)]
         except pyrt.ScriptExhausted:
             outcome = ["more", ""]
+        except pyrt.StepLimit:
+            outcome = ["diverges", ""]
         except _Timeout:
-            outcome = ["timeout", ""]
+            raise RuntimeError("wall-clock backstop hit while executing a scripted run")
         except RecursionError:
             outcome = ["exc", "RecursionError"]
         except Exception as e:
             outcome = pyrt.outcome_of_exception(e)
     finally:
+        sys.settrace(None)
         signal.setitimer(signal.ITIMER_REAL, 0)
         signal.signal(signal.SIGALRM, old)
     return {"events": orc.events, "outcome": outcome, "used": orc.i}
@@ -235,7 +259,7 @@ def run_blocks(src: str, script: Sequence[str], pnames: Sequence[str] = ("a", "b
         while True:
             steps += 1
             if steps > 5000:
-                raise _Timeout()
+                raise pyrt.StepLimit()
             b = scfg.graph[cur]
             tree = list(b.tree)
             two = len(b._jump_targets) == 2
